@@ -89,7 +89,7 @@ def cases():
     @st.composite
     def c(draw):
         b = draw(st.sampled_from(tool.BACKENDS))
-        over = dict(keywords=draw(st.integers(0, 3)) == 0, modules=draw(st.sampled_from([1, 1, 2, 3])))
+        over = dict(keywords=draw(st.integers(0, 3)) == 0, modules=draw(st.sampled_from([1, 1, 2, 3])), opt_slice_returns=True)
         if b in ("c", "cpp"):
             over["utf8strs"] = False
         over.update(STEER.get(b, {}))
